@@ -354,6 +354,7 @@ class Simulator(EventProducer, SimulatorInterface, Generic[TIME]):
         change the bound of a run that is in progress."""
         if self.is_starting_or_running():
             raise DSOLError("cannot start a running simulator")
+        self._await_stopped()
         if self._replication == None:
             raise DSOLError("no replication details")
         if not self.is_initialized():
@@ -406,6 +407,7 @@ class Simulator(EventProducer, SimulatorInterface, Generic[TIME]):
         an exception will be thrown, and no event will be fired."""
         if self.is_starting_or_running():
             raise DSOLError("cannot start a running simulator")
+        self._await_stopped()
         if not self.is_initialized():
             raise DSOLError("cannot start an uninitialized simulator")
         if (self._replication_state != ReplicationState.INITIALIZED \
@@ -428,6 +430,21 @@ class Simulator(EventProducer, SimulatorInterface, Generic[TIME]):
             self.fire_timed(self._simulator_time,
                             Simulator.STOP_EVENT, None)
             self._run_state = RunState.STOPPED
+
+    def _await_stopped(self):
+        """When the previous run is still winding down (it reports STOPPING,
+        or STOPPED before the worker thread is waiting again), wait maximally 
+        one second till the worker thread is waiting or ready. Without this, 
+        the last state changes of the previous run overwrite those of a new 
+        start() or step(), and the wake-up of the worker thread is cleared, 
+        so the command is silently lost."""
+        if self.__worker is None:
+            return
+        msec: int = int(time.time() * 1000)
+        while (not self.__worker.is_waiting() 
+               and not self.__worker.is_finalized()
+               and int(time.time() * 1000) - msec < 1000):
+            sleep(0.001)
 
     def _stop_impl(self):
         """Implementation of the stop behavior."""
